@@ -256,13 +256,15 @@ func c08Body(c *explore.C, tier universe.Tier, race bool) {
 	// sequential reference: every op alone from a reset state... the ops are pure functions of their
 	// arguments (C07), so the reference is the op run sequentially after the run, from a reset state
 	results := make([][]string, len(threads))
+	renderers := make([][]func() string, len(threads))
 	bodies := make([]func(), len(threads))
 	for t := range threads {
 		t := t
 		results[t] = make([]string, len(threads[t]))
+		renderers[t] = make([]func() string, len(threads[t]))
 		bodies[t] = func() {
 			for i, op := range threads[t] {
-				results[t][i] = op.run()
+				renderers[t][i] = op.exec() // results are rendered after the run, outside the threads
 			}
 		}
 	}
@@ -304,6 +306,13 @@ func c08Body(c *explore.C, tier universe.Tier, race bool) {
 	if inv != nil && inv.violation != "" {
 		c.Fail(inv.violation, cs("invariant", inv.violation))
 		return
+	}
+	for t := range renderers {
+		for i, f := range renderers[t] {
+			if f != nil {
+				results[t][i] = f()
+			}
+		}
 	}
 	// compare with the sequential result of each call
 	for t := range threads {
